@@ -594,7 +594,7 @@ skip_spwsp(const uint8_t *buf, size_t buf_size,
 		return (EINVAL);
 	buf_max = (buf + buf_size);
 	/* Skip head spaces. */
-	for (; 33 > (*buf) && buf < buf_max; buf ++)
+	for (; buf < buf_max && 33 > (*buf); buf ++)
 		;
 	if (NULL != buf_ret) {
 		(*buf_ret) = buf;
@@ -611,18 +611,18 @@ skip_spwsp2(const uint8_t *buf, size_t buf_size,
 
 	if (NULL == buf && 0 != buf_size)
 		return (EINVAL);
-	buf_max = (buf + buf_size - 1);
+	buf_max = (buf + buf_size);
 	if (NULL != buf_ret) {
 		/* Skip head spaces. */
-		for (; 33 > (*buf) && buf <= buf_max; buf ++)
+		for (; buf < buf_max && 33 > (*buf); buf ++)
 			;
 		(*buf_ret) = buf;
 	}
 	if (NULL != buf_size_ret) {
 		/* Skip tail spaces. */
-		for (; 33 > (*buf_max) && buf <= buf_max; buf_max --)
+		for (; buf < buf_max && 33 > (*(buf_max - 1)); buf_max --)
 			;
-		(*buf_size_ret) = (size_t)((buf_max + 1) - buf);
+		(*buf_size_ret) = (size_t)(buf_max - buf);
 	}
 	return (0);
 }
